@@ -147,7 +147,8 @@ pub fn scenarios(ctx: &Ctx) -> Vec<Scenario> {
         v.push(scenario(format!("sha/L{l}/M{m}/{mode:?}"), move |c| one::<Sha>(c, i, l, m, mode, ex)));
         v.push(scenario(format!("shake/L{l}/M{m}/{mode:?}"), move |c| one::<Shake>(c, i, l, m, mode, ex)));
     };
-    let big: &[(usize, usize)] = ctx.t(&[(0, 5), (10, 0), (10, 5), (1, 17), (33, 2), (40, 24), (2, 70), (170, 1), (1, 130), (63, 0), (64, 0), (30, 33), (31, 0), (62, 0), (65, 1), (126, 0), (127, 0), (3, 127), (5, 128), (255, 0)][..], &[(0, 5), (10, 0), (10, 5), (1, 17), (33, 2), (5, 5), (100, 10), (2, 64), (256, 1), (0, 33)][..]);
+    let big: &[(usize, usize)] = ctx.t(&[(0, 5), (10, 0), (10, 5), (1, 17), (33, 2), (40, 24), (2, 70), (170, 1), (1, 130), (63, 0), (64, 0), (30, 33), (31, 0), (62, 0), (65, 1), (126, 0), (127, 0), (3, 127), (5, 128), (255, 0)][..], &[(0, 5), (10, 0), (10, 5), (1, 17), (33, 2), (40, 24), (2, 70), (170, 1), (1, 130), (63, 0), (64, 0), (30, 33), (31, 0), (62, 0), (65, 1), (126, 0), (127, 0), (3, 127), (5, 128), (255, 0),
+                                                  (5, 5), (100, 10), (2, 64), (256, 1), (0, 33), (128, 128), (1, 300), (1000, 3)][..]);
     for &(l, m) in big {
         push(&mut v, l, m, Mode::Commit, false);
         if m == 0 {
